@@ -279,7 +279,8 @@ class C16(Property):
                        "probe.encoder-history", "probe.decoder-history",
                        "probe.long-history", "probe.warnings-error",
                        "probe.warnings-record",
-                       "probe.earlier-result-rechecked"]
+                       "probe.earlier-result-rechecked",
+                       "probe.same-text-again"]
 
     def kinds(self):
         ks = ["parser:" + c for c in dialects.CONFIGS] * 3
@@ -372,6 +373,13 @@ class C16(Property):
                         call = {"text": rng.choice(corpus())[1][:1200]}
                 if rng.random() < 0.3:
                     call["via"] = "loads"
+                prev = [c for c in calls if "text" in c and "plan" not in c]
+                if prev and rng.random() < 0.2:
+                    # the same text again (the next file has the same label)
+                    call = dict(rng.choice(prev))
+                    out.inc("probe.same-text-again")
+                if rng.random() < 0.25 and "plan" not in call:
+                    call["mutate"] = True
                 calls.append(call)
             elif r == "encoder":
                 if rng.random() < 0.35:
@@ -421,6 +429,20 @@ class C16(Property):
                     break
             if vs:
                 break
+            if kept and call.get("mutate") and isinstance(
+                    kept[0], pvl.collections.OrderedMultiDict):
+                # the caller goes on working with what it was given
+                try:
+                    kept[0].append("ZZ_CALLER", i)
+                    for _k, _v in list(kept[0]):
+                        if isinstance(_v, pvl.collections.OrderedMultiDict):
+                            _v.append("ZZ_NESTED", i)
+                            break
+                        if isinstance(_v, list):
+                            _v.append(i)
+                            break
+                except Exception:   # noqa: BLE001
+                    pass
             if kept and isinstance(kept[0],
                                    pvl.collections.OrderedMultiDict):
                 earlier.append((i, kept[0], describe_outcome(
